@@ -48,6 +48,11 @@ static void check_matrix_of(const SU_vector& v, const std::vector<double>& c, in
   }
 }
 
+// (a-b)*n for a scalar n of any arithmetic type: the result must be the vector n*(a-b). If overload resolution turns the product into
+// something else (a double), that is reported instead of failing to compile.
+static SU_vector expect_vector(SU_vector v) { return v; }
+static SU_vector expect_vector(double v) { throw Fail("C01|nested|(a-b)*n non-double scalar|result-is-not-a-vector", fmt("the product evaluated to the number %.17g: it was taken for a scalar product with SU_vector(n)", v)); }
+template <typename N> static SU_vector times_scalar(const SU_vector& A, const SU_vector& B, N n) { auto r = (A - B) * n; return expect_vector(std::move(r)); }
 void run_case(ByteSource& s, CaseInfo& ci) {
   int d = gen_dim(s);
   unsigned sub = s.choose(8);
@@ -227,8 +232,9 @@ void run_case(ByteSource& s, CaseInfo& ci) {
     case 7: {  // nested expressions: operators applied to unevaluated expression objects
       std::vector<double> a = gen_components(s, d, &pat, 200), b = gen_components(s, d, nullptr, 200), c = gen_components(s, d, nullptr, 200);
       double x = s.num(100), y = s.num(100);
-      unsigned form = s.choose(10);
-      static const char* names[] = {"(x*a)-(y*b)", "(x*a)+(y*b)", "(a+b)-c", "(a+b)+c", "(a-b)*x", "-(a+b)", "-(x*a)", "(x*a)*(y*b) scalar product", "(a+b).Evolve(h,t)", "(a+b).Evolve(x*h,t)"};
+      unsigned form = s.choose(12);
+      static const char* names[] = {"(x*a)-(y*b)", "(x*a)+(y*b)", "(a+b)-c", "(a+b)+c", "(a-b)*x", "-(a+b)", "-(x*a)", "(x*a)*(y*b) scalar product", "(a+b).Evolve(h,t)", "(a+b).Evolve(x*h,t)",
+                                    "(a-b)*n non-double scalar", "(a+b)*c scalar product with a vector"};
       ci.label(std::string("nested-") + names[form]); ci.nontrivial = two_kinds(a, d) && count_nonzero(b) > 0;
       ci.sample = fmt("nested %s d=%d a=%s b=%s c=%s x=%.17g y=%.17g", names[form], d, vec_str(a).c_str(), vec_str(b).c_str(), vec_str(c).c_str(), x, y);
       SU_vector A = make_vec(a, d), B = make_vec(b, d), C = make_vec(c, d);
@@ -257,6 +263,24 @@ void run_case(ByteSource& s, CaseInfo& ci) {
         CHECK((int)R.Dim() == d, sig + "|dim", "d=%d", d);
         for (int i = 0; i < d * d; i++)
           CHECK(bit_equal(R[i], want[i]) || (want[i] == 0 && R[i] == 0) || (std::isnan(want[i]) && std::isnan(R[i])), sig + "|not-componentwise", "d=%d slot %d lib=%.17g ieee=%.17g :: %s", d, i, R[i], want[i], ci.sample.c_str());
+      } else if (form == 10) {  // scalar multiplication of an expression by a scalar that is not a double: still a scalar multiplication
+        unsigned ty = s.choose(5); int n = 2 + (int)s.choose(5);  // n also takes the value d
+        static const char* TY[] = {"int", "unsigned", "long", "float", "long double"};
+        ci.label(std::string("scalar-type-") + TY[ty]);
+        double xv = ty == 3 ? (double)(n + 0.5f) : (double)n;
+        switch (ty) {
+          case 0: R = times_scalar(A, B, n); break;
+          case 1: R = times_scalar(A, B, (unsigned)n); break;
+          case 2: R = times_scalar(A, B, (long)n); break;
+          case 3: R = times_scalar(A, B, n + 0.5f); break;
+          default: R = times_scalar(A, B, (long double)n); break;
+        }
+        CHECK((int)R.Dim() == d, sig + "|dim", "scalar type %s value %g d=%d result dimension %u :: %s", TY[ty], xv, d, R.Dim(), ci.sample.c_str());
+        for (int i = 0; i < d * d; i++) { double w = (a[i] - b[i]) * xv; CHECK(bit_equal(R[i], w) || (w == 0 && R[i] == 0) || (std::isnan(w) && std::isnan(R[i])), sig + "|not-componentwise", "scalar type %s: d=%d slot %d lib=%.17g ieee=%.17g :: %s", TY[ty], d, i, R[i], w, ci.sample.c_str()); }
+      } else if (form == 11) {
+        SU_vector X = A + B;
+        double naive = X * C, got = (A + B) * C;
+        CHECK(bit_equal(naive, got) || (std::isnan(naive) && std::isnan(got)), sig + "|differs-from-evaluated-operands", "%.17g vs %.17g :: %s", got, naive, ci.sample.c_str());
       } else if (form == 7) {
         SU_vector X = x * A, Y = y * B;
         double naive = X * Y, got = (x * A) * (y * B);
@@ -304,4 +328,11 @@ void run_case(ByteSource& s, CaseInfo& ci) {
 void enumerate(const Emit&, const std::string&) {}
 
 // no defect of the pinned tree was found behind this property
-void regressions() {}
+// fixed finding 6da1297: (expression)*(non-double scalar) was taken for a scalar product
+void regressions() {
+  for (int d = 2; d <= 6; d++) for (int n = 2; n <= 6; n++) {
+    SU_vector A(d), B(d); for (int i = 0; i < d * d; i++) { A[i] = 0.5 + i; B[i] = 0.25 * i; }
+    SU_vector R1 = times_scalar(A, B, n), R2 = times_scalar(A, B, (unsigned)n), R3 = times_scalar(A, B, n + 0.5f);
+    for (int i = 0; i < d * d; i++) CHECK(R1[i] == (A[i] - B[i]) * n && R2[i] == R1[i] && R3[i] == (A[i] - B[i]) * (double)(n + 0.5f), "C01|nested|(a-b)*n non-double scalar|not-componentwise", "regression: d=%d n=%d slot %d", d, n, i);
+  }
+}
